@@ -322,7 +322,7 @@ def tab_row(tab, est, se, i):
 def run_IPTW(df, cfg):
     from zepid.causal.ipw import IPTW
     ip = IPTW(df, 'A', 'Y', standardize=cfg['std'])
-    ip.treatment_model(cfg['rhs'], stabilized=cfg['stab'], print_results=False)
+    ip.treatment_model(cfg['rhs'], model_numerator=cfg.get('num') or '1', stabilized=cfg['stab'], print_results=False)
     if cfg.get('mm'):
         ip.missing_model('A + ' + cfg['rhs'], stabilized=cfg['stab'], print_results=False)
     ip.marginal_structural_model('A')
@@ -586,6 +586,11 @@ def cfg_for(cls, cfg, tr):
 
 
 # ====================================================================================================== case generation
+IPTW_COMBOS = [('exposed', True, False), ('unexposed', True, True), ('population', True, True), ('unexposed', True, False),
+               ('exposed', False, False), ('population', False, False), ('exposed', True, True), ('unexposed', False, False)]
+IPTW_SEQ = [0]
+
+
 def gen_case(rng, cls):
     """-> (df, cfg, spec, continuous)"""
     if cls in ('IPTW', 'StochasticIPTW', 'TimeFixedGFormula', 'AIPTW', 'TMLE', 'GEstimationSNM'):
@@ -598,7 +603,11 @@ def gen_case(rng, cls):
         if cls in ('IPTW', 'TimeFixedGFormula'):
             cfg['std'] = rng.choice(['population', 'population', 'exposed', 'unexposed'])
         if cls == 'IPTW':
-            cfg['stab'] = rng.random() < 0.5
+            # every (target, stabilised, non-constant numerator) combination in turn: the A -> 1-A transform maps the
+            # 'exposed' weights of one coding onto the 'unexposed' weights of the other
+            cfg['std'], cfg['stab'], nonconst = IPTW_COMBOS[IPTW_SEQ[0] % len(IPTW_COMBOS)]
+            IPTW_SEQ[0] += 1
+            cfg['num'] = meta['rhs'].split(' + ')[0] if nonconst else None
         if cls in ('IPTW', 'AIPTW', 'TMLE', 'GEstimationSNM') and missing:
             cfg['mm'] = rng.random() < 0.6
         if cls == 'StochasticIPTW':
@@ -818,7 +827,7 @@ def fmt(v):
 def meta_part(ctx, fails, table):
     per = 3 if ctx.quick else 30
     for cls in CLASSES:
-        k = per + (1 if cls in ('IPTW', 'IPMW', 'TMLE', 'AIPTW') else 0)
+        k = per + (1 if cls in ('IPMW', 'TMLE', 'AIPTW') else 0) + (len(IPTW_COMBOS) - per if cls == 'IPTW' else 0)
         if cls in MEASURES:
             k = per if ctx.quick else 40
         for _ in range(k):
